@@ -84,6 +84,9 @@ def cases(ctx):
         txt = program(rng)
         mode = rng.choice(['file', 'file', 'two-files', 'stdin', 'two-files-base'])
         args = ['--imax=%d' % rng.choice([2, 3]), '--istop=unknown', '0']
+        if rng.random() < 0.4:
+            # the horizon of the model being printed must not depend on the other options (e.g. a minimum number of steps)
+            args = ['--imax=%d' % rng.choice([3, 4]), '--imin=%d' % rng.choice([2, 3, 4]), '--istop=%s' % rng.choice(['unknown', 'sat', 'unknown']), '0']
         if not ctx.quick and rng.random() < 0.2:
             args += ['-t', '4']
         out.append({'text': txt, 'mode': mode, 'args': args})
